@@ -105,6 +105,12 @@ def handle (toks : List String) : Option String :=
     match decStr t with
     | some s => encParse (parseText s)
     | none => bad
+  | ["fparse", t] =>
+    -- the same text read from a FILE (`parse_file`): the harness strips the source tag, which it
+    -- checks separately, so the answer is that of `parse`
+    match decStr t with
+    | some s => encParse (parseText s)
+    | none => bad
   | ["c01", opn, items] =>
     match (items.splitOn ";").mapM decItem with
     | some its =>
